@@ -33,7 +33,10 @@ def config(rng, name, m, dname, with_pref=None):
         from ._agg import pref_vector
         pref = pref_vector(rng, m, kind=["random", "random", "zeros", "zeros", "onehot", "spread"][int(rng.integers(6))])
     if name in ("UPGrad", "DualProj"):
-        return {"name": name, "pref": pref}
+        d = {"name": name, "pref": pref}
+        if pref is not None and rng.random() < 0.25:
+            d["pref_dtype"] = "float32" if dname == "float64" else "float64"  # preference vector given in another dtype than the matrix
+        return d
     if name in ("AlignedMTL", "ConFIG"):
         return {"name": name, "pref": pref}
     if name == "MGDA":
